@@ -222,20 +222,45 @@ def playback(base, h, features, mem_gb, timeout, unwindset=None):
     return tests, out
 
 
-def native_replay(base, name, data, features, profile):
-    """execute harness `name` natively on the overlay copy (real kernels, no stubs). returns (verdict, msg)
-    verdict in: 'panicked', 'returned', 'assume-violated', 'underrun', 'build-failed'"""
+_NATIVE_BIN = {}
+
+
+def native_build(base, features, profile):
+    """build the overlay copy's unit-test binary once per (features, profile); returns (path | None, output)"""
+    key = (base, ",".join(features), profile)
+    if key in _NATIVE_BIN:
+        return _NATIVE_BIN[key]
     crate = os.path.join(base, "crate")
     tdir = os.path.join(base, "nt")
-    env = dict(KANI_ENV, RUSTFLAGS="--cfg cryptoxide_verif", VERIF_REPLAY_HARNESS=name,
-               VERIF_REPLAY_BYTES=data.hex(), RUST_BACKTRACE="0")
-    cmd = ["cargo", "test", "--offline", "--target-dir", tdir, "--lib"]
+    env = dict(KANI_ENV, RUSTFLAGS="--cfg cryptoxide_verif")
+    cmd = ["cargo", "test", "--offline", "--target-dir", tdir, "--lib", "--no-run", "--message-format=json"]
     if profile == "release":
         cmd.append("--release")
     if features:
         cmd += ["--features", ",".join(features)]
-    cmd += ["verif_glue::verif_replay_entry", "--", "--exact", "--nocapture"]
-    rc, out = sh(cmd, crate, env=env, timeout=900, log=os.path.join(base, "replay-%s.log" % name))
+    rc, out = sh(cmd, crate, env=env, timeout=1200, log=os.path.join(base, "native-build-%s.log" % profile))
+    exe = None
+    for line in out.splitlines():
+        if line.startswith("{") and '"executable"' in line:
+            try:
+                d = json.loads(line)
+            except ValueError:
+                continue
+            if d.get("executable") and d.get("profile", {}).get("test"):
+                exe = d["executable"]
+    _NATIVE_BIN[key] = (exe, out)
+    return _NATIVE_BIN[key]
+
+
+def native_replay(base, name, data, features, profile):
+    """execute harness `name` natively on the overlay copy (real kernels, no stubs). returns (verdict, msg)
+    verdict in: 'panicked', 'returned', 'assume-violated', 'underrun', 'build-failed'"""
+    exe, bout = native_build(base, features, profile)
+    if not exe:
+        return "build-failed", bout[-2000:]
+    env = dict(KANI_ENV, VERIF_REPLAY_HARNESS=name, VERIF_REPLAY_BYTES=data.hex(), RUST_BACKTRACE="0")
+    rc, out = sh([exe, "verif_glue::verif_replay_entry", "--exact", "--nocapture", "--test-threads", "1"], os.path.join(base, "crate"),
+                 env=env, timeout=600, log=os.path.join(base, "replay-%s.log" % name))
     m = re.search(r"VERIF-REPLAY-RESULT: (\w+) underrun=(\w+)(?: msg=(.*))?", out)
     if not m:
         return "build-failed", out[-2000:]
